@@ -114,7 +114,35 @@ func newSystem(c config) (*system, error) {
 		chain = interceptor.NewChain(members)
 	}
 	sys := &system{c: c, s: hk.NewSession(chain, nil)}
-	sys.s.BindAll()
+	// RTCP flows before any stream is bound (a connection that only carries RTCP yet): transparent as well, twice
+	sys.s.BindRTCPWriter()
+	sys.s.BindRTCPReader()
+	for round := 0; round < 2; round++ {
+		sys.s.T.TakeRTCP()
+		pli := &rtcp.PictureLossIndication{SenderSSRC: 7, MediaSSRC: hk.StreamInfo(false, 1, true).SSRC}
+		if _, err := sys.s.RTCPW.Write([]rtcp.Packet{pli}, interceptor.Attributes{}); err != nil {
+			return nil, fail("C01:rtcp-before-any-stream-not-transparent", "RTCP batch %d written before any stream was bound was refused: %v", round+1, err)
+		}
+		found := false
+		for _, rec := range sys.s.T.TakeRTCP() {
+			for _, p := range rec.Pkts {
+				if q, ok := p.(*rtcp.PictureLossIndication); ok && q.SenderSSRC == 7 {
+					found = true
+				}
+			}
+		}
+		if !found {
+			return nil, fail("C01:rtcp-before-any-stream-not-transparent", "RTCP batch %d written before any stream was bound did not reach the next writer", round+1)
+		}
+		raw := hk.RawSR(hk.StreamInfo(false, 1, true).SSRC, 0xe000000000000000, 3)
+		if n, _, err := sys.s.ReadRTCP(raw); err != nil || n != len(raw) {
+			return nil, fail("C01:rtcp-before-any-stream-not-transparent", "RTCP packet %d read before any stream was bound: Read returned (%d, %v), the transport gave %d bytes", round+1, n, err, len(raw))
+		}
+	}
+	sys.s.BindLocal(1, true)
+	sys.s.BindLocal(2, false)
+	sys.s.BindRemote(1, true)
+	sys.s.BindRemote(2, false)
 	// a third local stream is bound last and stays idle: it negotiated the same extensions under different
 	// ids (transport-cc under 1, where stream 1 carries its mid) - per-stream settings must stay per stream
 	l3 := &hk.Local{K: 3, Info: hk.StreamInfo(true, 3, true)}
